@@ -105,6 +105,7 @@ func (in *Interp) nextDecision() (Decision, bool) {
 
 func (in *Interp) assertPC(t *Term) {
 	in.S.Assert(t)
+	in.F.NoteAsserted(t)
 	in.pcCount++
 }
 
